@@ -929,6 +929,10 @@ def get_mask_freqs(X, first_mask_mode='zc', imf_opts=None,
         _, IF, IA = spectra.frequency_transform(imf[:, 0, None], 1, 'nht',
                                                 smooth_phase=3)
         z = np.average(IF, weights=IA)
+        if not np.isfinite(z):
+            # Nothing oscillates in the first IMF (eg a constant signal) so there
+            # is no frequency to estimate - this matches the 'zc' estimate
+            z = 0.
         logger.info('Found first mask frequency of {0}'.format(z))
     elif first_mask_mode < .5:
         if first_mask_mode <= 0 or first_mask_mode >= .5:
